@@ -46,7 +46,7 @@ def _gen(rng):
 
 def cases(tier, seed):
     rng = random.Random(15000 + seed)
-    n = 5000 if tier == "quick" else 100000
+    n = 5000 if tier == "quick" else 135000
     return [_gen(rng) for _ in range(n)]
 
 
